@@ -493,33 +493,6 @@ theorem LinkPermEq.sel {l₁ l₂ : LinkArts} (h : LinkPermEq (some l₁) (some 
   · exact h.1
   · exact h.2
 
-theorem LinkPermEq.cleanSel {o₁ o₂ : Option LinkArts} (h : LinkPermEq o₁ o₂) (t : ArtType) :
-    LinkPermEq (o₁.map fun l => setSel t l (cleanArts (Rules.sel t l)))
-      (o₂.map fun l => setSel t l (cleanArts (Rules.sel t l))) := by
-  cases o₁ <;> cases o₂ <;> simp only [LinkPermEq] at h
-  · simp [LinkPermEq]
-  · cases t
-    · exact ⟨ArtsPermEq.clean h.1, h.2⟩
-    · exact ⟨h.1, ArtsPermEq.clean h.2⟩
-
-theorem CtxPermEq.update {c₁ c₂ : Ctx} (h : CtxPermEq c₁ c₂) (name : Str) (t : ArtType) :
-    CtxPermEq (ctxUpdate c₁ name fun l => setSel t l (cleanArts (Rules.sel t l)))
-      (ctxUpdate c₂ name fun l => setSel t l (cleanArts (Rules.sel t l))) := by
-  induction c₁ generalizing c₂ with
-  | nil => cases c₂ <;> simp_all [CtxPermEq, ctxUpdate]
-  | cons e₁ t₁ ih =>
-    cases c₂ with
-    | nil => simp [CtxPermEq] at h
-    | cons e₂ t₂ =>
-      simp only [CtxPermEq] at h
-      obtain ⟨hk, hl, ht⟩ := h
-      simp only [ctxUpdate, List.map_cons, CtxPermEq]
-      refine ⟨?_, ?_, ih ht⟩
-      · rw [hk]; split <;> first | rfl | exact hk
-      · rw [hk]; split
-        · exact hl.cleanSel t
-        · exact hl
-
 theorem CtxPermEq.lookup {c₁ c₂ : Ctx} (h : CtxPermEq c₁ c₂) (name : Str) :
     LinkPermEq ((InToto.lookup name c₁).getD none) ((InToto.lookup name c₂).getD none) ∧
     (InToto.lookup name c₁).isSome = (InToto.lookup name c₂).isSome := by
@@ -554,8 +527,10 @@ theorem CtxPermEq.arts {c₁ c₂ : Ctx} (h : CtxPermEq c₁ c₂) (name : Str) 
     · simp [LinkPermEq] at this
     · exact LinkPermEq.sel (by simpa using this.1) t
 
-/-- a single MATCH rule does not see the order: the consumed artifacts are the same list, and the
-    contexts after the in-place clean-up are again listings of the same maps -/
+/-- a single MATCH rule does not see the order: the consumed artifacts are the same list (the cleaned
+    copies of the source and of the destination map are listings of the same maps), and the contexts
+    it hands back (the contexts as they came: the rule does not write to the links) are again listings
+    of the same maps -/
 theorem verifyMatchRule_perm (glob : Str → Str → Bool)
     (pattern srcPrefix dstPrefix : Str) (dstType : ArtType) (dstName : Str)
     (srcName : Str) (srcType : ArtType) (queue : List Str) (ctx₁ ctx₂ : Ctx) (h : CtxPermEq ctx₁ ctx₂) :
@@ -575,13 +550,12 @@ theorem verifyMatchRule_perm (glob : Str → Str → Bool)
     · exact ⟨rfl, h⟩
     · simp [LinkPermEq] at hl
     · simp [LinkPermEq] at hl
-    · have h2 := (h.update srcName srcType).update dstName dstType
-      refine ⟨?_, h2⟩
+    · refine ⟨?_, h⟩
       simp only
       apply List.filter_congr
       intro x _
-      have hs := (h2.arts srcName srcType).get x
-      have hd := (h2.arts dstName dstType).get
+      have hs := (h.arts srcName srcType).clean.get x
+      have hd := (h.arts dstName dstType).clean.get
         (Path.clean (join2 (normPrefix dstPrefix) (trimPrefix x (normPrefix srcPrefix))))
       rw [hs.1, hd.1, hd.2]
 
